@@ -9,6 +9,7 @@
   statement "convert(N(D)) ≈ convert(D)" are judged on the implementation on every run.
 -/
 import PicoSVG.Proofs.Noise
+import PicoSVG.Proofs.CompP
 
 set_option linter.unusedSectionVars false
 namespace PicoSVG.C14
@@ -68,5 +69,29 @@ theorem foreign_attr_invisible (ng : Bool) (t : String) (a : Attrs) (k v : Strin
 example : ExtL piPass [.elem 2 (svgTag "rect") [] [], .elem 3 (svgTag "rect") [] []]
     [.elem 2 (svgTag "rect") [] [], .pi, .elem 3 (svgTag "rect") [] []] :=
   .cons (.elem rfl rfl .nil) (.ins rfl rfl (.cons (.elem rfl rfl .nil) .nil))
+
+/-! #### all four passes together -/
+
+/-- C14-2a: on a text-free document the clean-up `remove_nonsvg_content; remove_processing_instructions;
+    remove_anonymous_symbols; remove_title_meta_desc` is ONE bottom-up local pass (`CompP.allPass`) -/
+theorem cleanup_single_pass (ng : Bool) (u : Nat) (t : String) (a : Attrs) (cs : List Node)
+    (hroot : (nonSvgPass ng).drop t a = false) (hcs : CompP.noTextL cs = true) :
+    cleanup ng (.elem u t a cs)
+      = .elem u t ((nonSvgPass ng).amap t a) (rewriteList (CompP.allPass ng).f false cs) :=
+  CompP.cleanup_single_pass ng u t a cs hroot hcs
+
+/-- C14-2b: hence it is blind to ANY MIX of the four noise kinds inserted anywhere at once (text-free noise) -/
+theorem cleanup_blind_mixed (ng : Bool) (u : Nat) (t : String) (a : Attrs) (cs cs' : List Node)
+    (hroot : (nonSvgPass ng).drop t a = false) (hcs : CompP.noTextL cs = true) (hcs' : CompP.noTextL cs' = true)
+    (h : ExtL (CompP.allPass ng) cs cs') :
+    cleanup ng (.elem u t a cs') = cleanup ng (.elem u t a cs) :=
+  CompP.cleanup_blind_mixed ng u t a cs cs' hroot hcs hcs' h
+
+/-- every kind of noise is noise for the combined pass (the hypothesis of C14-2b is satisfiable by each kind) -/
+theorem allPass_noise_kinds :
+    (CompP.allPass true).noise (.elem 7 "{http://example.org/x}blob" [] []) = true ∧
+    (CompP.allPass true).noise .pi = true ∧
+    (CompP.allPass true).noise (.elem 7 (svgTag "symbol") [("viewBox", "0 0 1 1")] []) = true ∧
+    (CompP.allPass true).noise (.elem 7 (svgTag "metadata") [] []) = true := CompP.allPass_noise_kinds
 
 end PicoSVG.C14
